@@ -181,6 +181,10 @@ func (b *BinaryExpression) plainLinkTo(l *BinaryExpression) bool {
 	if b.Right == nil || b.Not || upperOp == "IS NULL" || upperOp == "IS NOT NULL" {
 		return false
 	}
+	switch upperOp {
+	case "LIKE", "ILIKE", "SIMILAR TO", "REGEXP", "RLIKE":
+		return false // their right operand has its own parenthesisation rule (nodeSQL)
+	}
 	prec := sqlOperatorPrecedence(upperOp)
 	lop := strings.ToUpper(l.operatorText())
 	p := sqlOperatorPrecedence(lop)
@@ -212,6 +216,11 @@ func (b *BinaryExpression) nodeSQL() string {
 	}
 
 	right := operandSQL(b.Right, prec, true)
+	switch upperOp {
+	case "LIKE", "ILIKE", "SIMILAR TO", "REGEXP", "RLIKE":
+		// the pattern is read as a primary expression
+		right = operandSQL(b.Right, 9, false)
+	}
 
 	if b.Not {
 		switch upperOp {
